@@ -437,6 +437,16 @@ func run(c *vc.Ctx) {
 				}
 				try("CAM", "PaceOid", "other-oid@"+o.String(), func() { ev.PaceOid = o }, func() { ev.PaceOid = oo }, false)
 			}
+			// EcadIC re-encrypted under the same key with an arithmetically related plaintext
+			{
+				orig := ev.EcadIC
+				vs := ecadVariants(ev)
+				for _, name := range []string{"ecad-of-scalar-plus-group-order"} {
+					if v, ok := vs[name]; ok && !bytes.Equal(v, orig) {
+						try("CAM", "EcadIC", name, func() { ev.EcadIC = v }, func() { ev.EcadIC = orig }, false)
+					}
+				}
+			}
 			// documented exception: joint replacement of ChipKaPub and EcadIC, built from the stored TermKaPri
 			if nk, ne, ok := jointReplacement(ev); ok {
 				ok1, ok2 := ev.ChipKaPub, ev.EcadIC
